@@ -20,6 +20,7 @@ import (
 	"time"
 
 	ct "github.com/google/certificate-transparency-go"
+	"github.com/google/certificate-transparency-go/trillian/ctfe"
 	"github.com/google/certificate-transparency-go/trillian/ctfe/cache"
 	"github.com/google/certificate-transparency-go/trillian/ctfe/storage"
 	mysqlstore "github.com/google/certificate-transparency-go/trillian/ctfe/storage/mysql"
@@ -322,6 +323,17 @@ type ticket struct {
 // otherwise hang the run).
 const gateWatchdog = 120 * time.Second
 
+// gateMissed: an expected write did not arrive within the generous wait once; later waits of this process are short
+// (a front end that never makes the write would otherwise cost the generous wait at every step).
+var gateMissed atomic.Bool
+
+func gateWait() time.Duration {
+	if gateMissed.Load() {
+		return 5 * time.Second
+	}
+	return gateWatchdog
+}
+
 func newGateCache(real cache.IssuanceChainCache) *GateCache {
 	return &GateCache{real: real, arrived: make(chan struct{}, 4096)}
 }
@@ -365,7 +377,10 @@ func (g *GateCache) Set(ctx context.Context, key []byte, chain []byte) error {
 	if t.inside {
 		return g.real.Set(ctx, key, chain)
 	}
-	g.arrived <- struct{}{}
+	select {
+	case g.arrived <- struct{}{}: // a wake-up hint only (Fire and Settle poll as well): never wait for a reader
+	default:
+	}
 	select {
 	case <-t.release:
 	case <-time.After(gateWatchdog):
@@ -416,7 +431,7 @@ func (g *GateCache) Judge() (unsound, inside int, forced bool) {
 
 // Fire lets one pending Set for key run to completion.
 func (g *GateCache) Fire(key []byte) error {
-	deadline := time.Now().Add(5 * time.Second)
+	deadline := time.Now().Add(gateWait()) // generous: the write arrives within microseconds; a short wait is a wall-clock judgment on a loaded machine
 	for {
 		g.mu.Lock()
 		for i, t := range g.tickets {
@@ -430,6 +445,7 @@ func (g *GateCache) Fire(key []byte) error {
 		}
 		g.mu.Unlock()
 		if time.Now().After(deadline) {
+			gateMissed.Store(true)
 			return errors.New("no pending cache.Set for that chain arrived at the gate")
 		}
 		select {
@@ -439,10 +455,50 @@ func (g *GateCache) Fire(key []byte) error {
 	}
 }
 
+// FireKey lets every Set for key that waits at the gate run to completion and returns how many there were (a long
+// get-entries page starts one detached write per lookup, many of them for the same chain).
+func (g *GateCache) FireKey(key []byte) int {
+	g.mu.Lock()
+	var mine, rest []*ticket
+	for _, t := range g.tickets {
+		if t.key == string(key) {
+			mine = append(mine, t)
+		} else {
+			rest = append(rest, t)
+		}
+	}
+	g.tickets = rest
+	g.mu.Unlock()
+	for _, t := range mine {
+		close(t.release)
+		<-t.done
+	}
+	return len(mine)
+}
+
+// insideSeen tells whether a write made inside its request has arrived since the last Judge.
+func (g *GateCache) insideSeen() bool {
+	g.mu.Lock()
+	defer g.mu.Unlock()
+	for _, t := range g.seen[g.judged:] {
+		if t.inside {
+			return true
+		}
+	}
+	return false
+}
+
+// Waiting is the number of Sets at the gate.
+func (g *GateCache) Waiting() int {
+	g.mu.Lock()
+	defer g.mu.Unlock()
+	return len(g.tickets)
+}
+
 // Settle waits until at least want detached Sets have arrived at the gate (they are started with `go`, so they
 // arrive some time after the request returned), gives stragglers a moment, and returns how many wait there.
 func (g *GateCache) Settle(want int) int {
-	deadline := time.Now().Add(5 * time.Second)
+	deadline := time.Now().Add(5 * time.Second) // no verdict hangs on this wait: a write that is late here is seen at the next look
 	for {
 		g.mu.Lock()
 		n := len(g.tickets)
@@ -672,11 +728,35 @@ func newCache(capacity int, ttl time.Duration) (cache.IssuanceChainCache, error)
 	return cache.NewIssuanceChainCache(context.Background(), cache.LRU, cache.Option{Size: capacity, TTL: ttl})
 }
 
+// popLeaf is one certificate of a population: its id, entry type and issuance chain ("cA": one intermediate, "cB":
+// two RSA intermediates, "c0": the empty chain - a trusted root logged alone -, any other id: an intermediate of its own).
+type popLeaf struct {
+	ID    string
+	Pre   bool
+	Chain string
+}
+
 // newProc builds a process with the given logs.  realTTL = 0: entries never expire within a run.
 func newProc(dir string, capacity int, seedSalt int64, realTTL time.Duration, dialect string, names []string) (*proc, error) {
+	return newProcPop(dir, capacity, seedSalt, realTTL, dialect, names, nil)
+}
+
+// newProcPop is newProc with a population of its own (nil: the five certificates of MCChainOf).
+func newProcPop(dir string, capacity int, seedSalt int64, realTTL time.Duration, dialect string, names []string, pop []popLeaf) (*proc, error) {
 	ids := []string{"p1", "p2", "x1", "x2", "x3"}
 	pre := map[string]bool{"p1": true, "p2": true}
+	chainID := chainOf
+	if pop != nil {
+		ids, pre, chainID = nil, map[string]bool{}, map[string]string{}
+		for _, l := range pop {
+			ids = append(ids, l.ID)
+			pre[l.ID] = l.Pre
+			chainID[l.ID] = l.Chain
+		}
+	}
 	root := pki.NewRoot(pki.Opts{CN: "twin root"})
+	roots := []*pki.Node{root}
+	issuers := map[string]*pki.Node{}
 	iA := root.Issue(pki.Opts{CN: "issuer A", IsCA: true})
 	iB0 := root.Issue(pki.Opts{CN: "issuer B0", IsCA: true, KeyType: "rsa2048"})
 	iB := iB0.Issue(pki.Opts{CN: "issuer B", IsCA: true, KeyType: "rsa2048"}) // a long chain: two RSA intermediates and the root
@@ -684,29 +764,46 @@ func newProc(dir string, capacity int, seedSalt int64, realTTL time.Duration, di
 	clock := &ctfeenv.Clock{}
 	clock.Set(ctfeenv.BaseTime())
 	subs := map[string]*Sub{}
-	for _, id := range ids {
+	for n, id := range ids {
 		s := &Sub{ID: id, Pre: pre[id]}
 		o := pki.Opts{CN: "leaf " + id, DNS: []string{id + ".twin.test"}}
 		if s.Pre {
 			o.Poison = "ok"
 		}
 		var leaf *pki.Node
-		switch chainOf[id] {
+		switch chainID[id] {
 		case "cA": // [issuer A, root]
 			leaf = iA.Issue(o)
-			s.Chain = pki.DERs(leaf.Chain(id != "x2")) // root omitted for one of them: same validated path
+			s.Chain = pki.DERs(leaf.Chain(id != "x2" && (pop == nil || n%3 != 1))) // root omitted for some of them: same validated path
 			s.Path = pki.DERs(leaf.Chain(true))
 		case "cB":
 			leaf = iB.Issue(o)
 			s.Chain, s.Path = pki.DERs(leaf.Chain(true)), pki.DERs(leaf.Chain(true))
-		case "c0": // the trusted root itself: a leaf-only path, empty issuance chain
-			s.Chain, s.Path = [][]byte{root.DER}, [][]byte{root.DER}
+		case "c0": // a trusted root itself: a leaf-only path, empty issuance chain (a population has several such roots)
+			r := root
+			if pop != nil {
+				if s.Pre {
+					return nil, fmt.Errorf("population: %s: the empty chain belongs to a root logged alone, which is no precertificate", id)
+				}
+				r = pki.NewRoot(pki.Opts{CN: "twin root " + id})
+				roots = append(roots, r)
+			}
+			s.Chain, s.Path = [][]byte{r.DER}, [][]byte{r.DER}
+		default: // an issuer of its own directly below the root
+			iss := issuers[chainID[id]]
+			if iss == nil {
+				iss = root.Issue(pki.Opts{CN: "issuer " + chainID[id], IsCA: true})
+				issuers[chainID[id]] = iss
+			}
+			leaf = iss.Issue(o)
+			s.Chain = pki.DERs(leaf.Chain(n%2 == 0))
+			s.Path = pki.DERs(leaf.Chain(true))
 		}
-		s.Shape = chainOf[id]
+		s.Shape = chainID[id]
 		subs[id] = s
 	}
 	mk := func(o ctfeenv.Opts, prefix string) (*World, error) {
-		o.Dir, o.LogKey, o.Roots, o.Clock = dir, logKey, []*pki.Node{root}, clock
+		o.Dir, o.LogKey, o.Roots, o.Clock = dir, logKey, roots, clock
 		o.Prefix = prefix
 		env, err := ctfeenv.New(o)
 		if err != nil {
@@ -2006,6 +2103,449 @@ func TestChainStoreBackendFaults(t *testing.T) {
 		rep.Violate("chainstore:backendfault:page:untouched", fmt.Sprintf("get-entries(0,2) of an intact page answered %d with %d entries %v", code, len(ents), err), nil)
 	}
 	rep.Replayed = 4 + n
+	if err := rep.Write(); err != nil {
+		t.Fatal(err)
+	}
+}
+
+// ---------------------------------------------------------------------------------------------------------------------
+// ChainStorePaging.tla: the page dimension of get-entries over external chain storage.
+
+// PGStep mirrors a step of ChainStorePaging.tla.
+type PGStep struct {
+	Op   string `json:"op"`
+	Args struct {
+		Start   int    `json:"start"`
+		To      int    `json:"to"`
+		Workers int    `json:"workers"` // how the model organised the per-leaf work: no input to the implementation
+		Split   string `json:"split"`
+		Garble  *struct {
+			Pos   int    `json:"pos"` // position in the response of the leaf the backend returns garbled (-1: none)
+			Class string `json:"class"`
+		} `json:"garble"`
+		Fault bool   `json:"fault"` // a storage fault strikes one lookup of the request
+		Index int    `json:"index"`
+		Via   string `json:"via"`
+		Chain string `json:"chain"`
+		Class string `json:"class"`
+	} `json:"args"`
+	Reply struct {
+		Status  int `json:"status"`
+		Count   int `json:"count"`
+		Finds   int `json:"finds"`
+		Unfixed int `json:"unfixed"`
+	} `json:"reply"`
+}
+
+// PGBehaviour is one exported behaviour of MCChainStorePaging.tla.
+type PGBehaviour struct {
+	Cap     int    `json:"cap"`
+	Dialect string `json:"dialect"`
+	Tree    int    `json:"tree"`
+	MaxPage int    `json:"maxPage"`
+	Pattern []struct {
+		Kind   string `json:"kind"`
+		Chain  string `json:"chain"`
+		Layout string `json:"layout"`
+	} `json:"pattern"`
+	Steps []PGStep `json:"steps"`
+}
+
+// lenClass names the length class of a response.
+func lenClass(n int) string {
+	switch {
+	case n <= 1:
+		return "1"
+	case n <= 8:
+		return "2-8"
+	case n <= 32:
+		return "9-32"
+	case n <= 64:
+		return "33-64"
+	case n <= 128:
+		return "65-128"
+	case n <= 256:
+		return "129-256"
+	}
+	return "257+"
+}
+
+// extraForm says what a served extra_data looks like from outside (for the description of a violation only).
+func extraForm(ed []byte) string {
+	if len(ed) >= 34 && ed[len(ed)-34] == 0 && ed[len(ed)-33] == 32 {
+		return "ends in a 32-byte hash structure (the stored form)"
+	}
+	return "no trailing hash structure"
+}
+
+func runPaging(t *testing.T, beh PGBehaviour, idx int, rep *vh.Report, dir string) {
+	infra := func(format string, a ...any) { t.Errorf("paging behaviour %d: "+format, append([]any{idx}, a...)...) }
+	if len(beh.Pattern) == 0 || beh.Tree <= 0 {
+		infra("no tree")
+		return
+	}
+	leafAt := func(i int) (kind, chain, layout string) {
+		p := beh.Pattern[i%len(beh.Pattern)]
+		return p.Kind, p.Chain, p.Layout
+	}
+	pop := make([]popLeaf, beh.Tree)
+	for i := range pop {
+		kind, chain, _ := leafAt(i)
+		pop[i] = popLeaf{ID: fmt.Sprintf("L%d", i), Pre: kind == "precert", Chain: chain}
+	}
+	pr, err := newProcPop(dir, beh.Cap, int64(5000+idx), 0, beh.Dialect, []string{"X"}, pop)
+	if err != nil {
+		infra("twin: %v", err)
+		return
+	}
+	defer pr.shut(nil)
+	tw := pr.logs["X"]
+	diverged, unmodelled := false, false
+	viol := func(n int, fp, what string) {
+		diverged = true
+		tw.gate.mu.Lock()
+		forced := tw.gate.forced
+		tw.gate.mu.Unlock()
+		if forced {
+			rep.Add("behaviours_cut_by_the_gate_watchdog", 1)
+			return
+		}
+		what = fmt.Sprintf("[tree of %d leaves: entry types x chains x layouts in a period of %d; %s storage, cache capacity %d, get-entries limit %d] ", beh.Tree, len(beh.Pattern), tw.dialect, beh.Cap, beh.MaxPage) + what
+		upto := n + 1
+		if upto > len(beh.Steps) {
+			upto = len(beh.Steps)
+		}
+		b := beh
+		b.Steps = beh.Steps[:upto]
+		rep.Violate("chainstore:paging:"+fp, what, map[string]any{"paging": b, "step": n})
+	}
+	// ---- the tree: every leaf in hash form is submitted to both twins, every legacy leaf is written by a default-mode
+	// instance and put into both backends as it is
+	queued := 0
+	flush := func() {
+		if queued > 0 {
+			nanos := tw.d.Nanos(1, 0)
+			tw.d.Env.Backend.Sequence(queued, nanos, nil)
+			tw.x.Env.Backend.Sequence(queued, nanos, nil)
+			queued = 0
+		}
+	}
+	for i := 0; i < beh.Tree && !diverged; i++ {
+		_, chain, layout := leafAt(i)
+		sub := tw.d.Subs[pop[i].ID]
+		if layout == "full" {
+			flush()
+			n0 := tw.l.Env.Backend.NumCalls()
+			if c, _, b, e := tw.l.Env.AddChain(sub.Chain, sub.Pre); e != nil || c != 200 {
+				viol(-1, "load:direct-submit:legacy:"+chain, fmt.Sprintf("a default-mode instance did not accept leaf %d: status %d %v %.200s", i, c, e, b))
+				break
+			}
+			calls := tw.l.Env.Backend.CallsSince(n0)
+			if len(calls) == 0 {
+				infra("legacy builder: no backend call")
+				return
+			}
+			req := calls[0].Req.(*trillian.QueueLeafRequest)
+			nanos := tw.d.Nanos(1, 0)
+			tw.d.Env.Backend.InjectLeaf(req.Leaf.LeafValue, req.Leaf.ExtraData, nanos, req.Leaf.LeafIdentityHash)
+			tw.x.Env.Backend.InjectLeaf(req.Leaf.LeafValue, req.Leaf.ExtraData, nanos, req.Leaf.LeafIdentityHash)
+			continue
+		}
+		m0 := tw.rec.mark()
+		codeX, bodyX, errX := addChainCtx(context.Background(), tw, sub.Chain, sub.Pre)
+		if errX != nil || codeX != 200 {
+			viol(-1, fmt.Sprintf("load:submit:status:got%d", codeX), fmt.Sprintf("submission of leaf %d (chain %s) with external chain storage answered %d %v %.200s", i, chain, codeX, errX, bodyX))
+			break
+		}
+		if c, _, b, e := tw.d.Env.AddChain(sub.Chain, sub.Pre); e != nil || c != 200 {
+			viol(-1, "load:direct-submit:"+chain, fmt.Sprintf("the default-mode instance did not accept leaf %d, which the external-storage instance accepted: status %d %v %.200s", i, c, e, b))
+			break
+		}
+		queued++
+		for _, a := range tw.rec.since(m0, "add") {
+			sum := sha256.Sum256(a.data)
+			if err := chainCerts(a.data, sub.Path[1:]); err != nil {
+				viol(-1, "load:stored-chain-not-the-submitted-chain:"+chain, fmt.Sprintf("submission of leaf %d: the %d bytes handed to the issuance chain storage do not decode to the %d certificates of the submitted chain: %v", i, len(a.data), len(sub.Path)-1, err))
+			} else if !bytes.Equal(sum[:], a.key) {
+				viol(-1, "load:storage-key-not-the-hash-of-the-chain:"+chain, fmt.Sprintf("submission of leaf %d: the chain is stored under a key that is not the SHA-256 of the stored bytes", i))
+			} else if a.err == nil {
+				if _, ok := tw.keys[chain]; !ok {
+					tw.keys[chain], tw.vals[chain] = a.key, a.data
+				}
+			}
+		}
+	}
+	flush()
+	if diverged {
+		rep.Eval("")
+		return
+	}
+	if tw.d.Env.Backend.Size() != beh.Tree || tw.x.Env.Backend.Size() != beh.Tree {
+		infra("trees of %d / %d leaves, want %d", tw.d.Env.Backend.Size(), tw.x.Env.Backend.Size(), beh.Tree)
+		return
+	}
+	// the specification starts with a cold cache and nothing on its way: the process that took the submissions is
+	// replaced (its detached writes die with it)
+	if err := pr.restart(); err != nil {
+		infra("restart: %v", err)
+		return
+	}
+	// settle: every detached write that has arrived is judged (sound only if its request got that chain out of the
+	// storage under that hash); a write made inside its request means the implementation caches more eagerly than the
+	// model - the lookups predicted for the rest of the behaviour no longer apply
+	// arrive waits for the detached writes the served lookups have started (started with `go`: on a loaded machine
+	// they may take their time; the bound only ends the wait, no verdict is taken from it)
+	arrive := func(want int) bool {
+		for k := 0; k < 24; k++ {
+			if tw.gate.Settle(want) >= want || tw.gate.insideSeen() {
+				return true
+			}
+		}
+		return false
+	}
+	settle := func(n int, want int, what string) {
+		if !arrive(want) {
+			unmodelled = true // fewer detached writes than lookups served: the cache states of the model no longer apply
+			rep.Add("behaviours_cut_waiting_for_detached_writes", 1)
+			return
+		}
+		unsound, inside, forced := tw.gate.Judge()
+		switch {
+		case forced:
+			unmodelled = true
+			rep.Add("behaviours_cut_by_the_gate_watchdog", 1)
+		case unsound > 0:
+			viol(n, "cache-write:unsound:"+what, fmt.Sprintf("%d cache writes carry a chain that their request did not get out of the storage under that hash", unsound))
+		case inside > 0:
+			unmodelled = true
+			rep.Add("behaviours_cut_at_unmodelled_cache_write", 1)
+		}
+	}
+	classes := map[string]bool{}
+	for n, s := range beh.Steps {
+		if diverged || unmodelled {
+			break
+		}
+		switch s.Op {
+		case "Page":
+			from, to := s.Args.Start, s.Args.To
+			codeD, entsD, errD := readRange(context.Background(), tw.d, nil, from, to)
+			if errD != nil || codeD != 200 || len(entsD) != s.Reply.Count {
+				viol(n, "direct-count", fmt.Sprintf("get-entries(%d,%d) on the default-mode instance: status %d, %d entries, %v; the specification (Clip) has %d", from, to, codeD, len(entsD), errD, s.Reply.Count))
+				continue
+			}
+			gpos, gclass := -1, ""
+			if g := s.Args.Garble; g != nil && g.Class != "" && g.Class != "none" {
+				gpos, gclass = from+g.Pos, g.Class
+				tw.x.Env.Backend.Intercept = func(seq int, method string, req, rsp proto.Message, err error) (proto.Message, error) {
+					if r, ok := rsp.(*trillian.GetLeavesByRangeResponse); ok && method == "GetLeavesByRange" && err == nil {
+						for k, lf := range r.Leaves {
+							if lf != nil && lf.LeafIndex == int64(gpos) {
+								r.Leaves[k] = garbleLeaf(lf, gclass, idx*131+n)
+							}
+						}
+					}
+					return rsp, err
+				}
+			}
+			ctx, cancel := context.WithCancel(context.Background())
+			if s.Args.Fault {
+				tw.store.arm("findError", idx*31+n, cancel)
+			}
+			before := tw.gate.Waiting()
+			m0 := tw.rec.mark()
+			codeX, entsX, errX := readRange(ctx, tw.x, tw, from, to)
+			cancel()
+			tw.store.disarm()
+			tw.x.Env.Backend.Intercept = nil
+			finds := len(tw.rec.since(m0, "find"))
+			lc := lenClass(s.Reply.Count)
+			cause := "damaged-or-missing-row"
+			switch {
+			case gclass != "":
+				cause = "garbled-leaf:" + gclass
+			case s.Args.Fault:
+				cause = "findError"
+			}
+			if errX != nil && codeX == 0 {
+				viol(n, "panic:len="+lc, errX.Error())
+				continue
+			}
+			if s.Reply.Status == 200 {
+				if codeX != 200 {
+					viol(n, fmt.Sprintf("status:got%d:len=%s", codeX, lc), fmt.Sprintf("get-entries(%d,%d) with external chain storage answered %d %v, the direct mode serves %d entries", from, to, codeX, errX, len(entsD)))
+					continue
+				}
+				if len(entsX) != len(entsD) {
+					viol(n, "count:len="+lc, fmt.Sprintf("get-entries(%d,%d) with external chain storage served %d entries, the direct mode %d", from, to, len(entsX), len(entsD)))
+					continue
+				}
+				wrong, first := 0, -1
+				for i := range entsX {
+					if !bytes.Equal(entsX[i].LeafInput, entsD[i].LeafInput) || !bytes.Equal(entsX[i].ExtraData, entsD[i].ExtraData) {
+						if first < 0 {
+							first = i
+						}
+						wrong++
+					}
+				}
+				rep.Add("paging_entries_compared", len(entsX))
+				if wrong > 0 {
+					kind, chain, layout := leafAt(from + first)
+					viol(n, fmt.Sprintf("entry-differs:len=%s:%s", lc, posClass(from, from+len(entsX)-1, from+first)), fmt.Sprintf("get-entries(%d,%d), a response of %d entries: %d of them differ from the direct mode, the first at position %d of the response (index %d, %s, chain %s, stored in %s form): extra_data of %d bytes (%s), the direct mode serves %d bytes", from, to, len(entsX), wrong, first, from+first, kind, chain, layout, len(entsX[first].ExtraData), extraForm(entsX[first].ExtraData), len(entsD[first].ExtraData)))
+					continue
+				}
+				settle(n, before+finds, "after-page")
+				if diverged || unmodelled {
+					continue
+				}
+				if finds != s.Reply.Finds {
+					viol(n, fmt.Sprintf("find-calls:len=%s", lc), fmt.Sprintf("get-entries(%d,%d): storage.FindByKey called %d times, the specification (Lookups) says %d: one per leaf in hash form whose chain the cache does not hold", from, to, finds, s.Reply.Finds))
+					continue
+				}
+				classes[lc] = true
+				rep.Add("paging_pages_served_len_"+lc, 1)
+				if s.Reply.Count%4 != 0 && s.Reply.Count > 8 {
+					rep.Add("paging_pages_served_longer_than_8_not_a_multiple_of_4", 1)
+				}
+				if from+s.Reply.Count == beh.Tree {
+					rep.Add("paging_pages_ending_at_the_head_of_the_tree", 1)
+				}
+				if to-from+1 > s.Reply.Count {
+					rep.Add("paging_pages_cut_by_the_limit_or_the_head", 1)
+				}
+				continue
+			}
+			// the specification answers with an error
+			pc := "none"
+			if gpos >= 0 {
+				pc = posClass(from, from+s.Reply.Count-1, gpos)
+			}
+			switch {
+			case codeX == 200:
+				wrong, first := 0, -1
+				for i := range entsX {
+					if i >= len(entsD) || !bytes.Equal(entsX[i].LeafInput, entsD[i].LeafInput) || !bytes.Equal(entsX[i].ExtraData, entsD[i].ExtraData) {
+						if first < 0 {
+							first = i
+						}
+						wrong++
+					}
+				}
+				if wrong > 0 || gclass != "" {
+					viol(n, fmt.Sprintf("unfixed-leaf-served-200:%s:len=%s:%s", cause, lc, pc), fmt.Sprintf("get-entries(%d,%d): a leaf of the response cannot be fixed (%s), yet it was answered 200 with %d entries, %d of them not what the direct mode serves (first at position %d)", from, to, cause, len(entsX), wrong, first))
+				} else {
+					unmodelled = true // served whole and right from a cache that is ahead of the model
+					rep.Add("behaviours_cut_at_unmodelled_cache_write", 1)
+				}
+			case codeX < 500:
+				viol(n, fmt.Sprintf("fault-status:%s:got%d", cause, codeX), fmt.Sprintf("get-entries(%d,%d): a leaf that cannot be fixed (%s) answered %d, expected 5xx", from, to, cause, codeX))
+			default:
+				rep.Add("paging_pages_refused_"+strings.SplitN(cause, ":", 2)[0], 1)
+				// the lookups that succeeded before the failure have started their detached writes: which, depends on the
+				// order of the per-leaf work; they wait at the gate and are judged like any other
+				settle(n, before, "after-failed-page")
+			}
+		case "Read":
+			i := s.Args.Index
+			codeD, leafD, extraD, errD := readEntry(tw.d, s.Args.Via, i, beh.Tree)
+			if errD != nil || codeD != 200 {
+				viol(n, "direct-read:"+s.Args.Via, fmt.Sprintf("the default-mode instance did not serve stored entry %d (tree size %d): status %d %v", i, beh.Tree, codeD, errD))
+				continue
+			}
+			before := tw.gate.Waiting()
+			m0 := tw.rec.mark()
+			codeX, leafX, extraX, errX := readEntryCtx(context.Background(), tw, s.Args.Via, i, beh.Tree)
+			finds := len(tw.rec.since(m0, "find"))
+			_, chain, _ := leafAt(i)
+			switch {
+			case errX != nil && codeX == 0:
+				viol(n, "read:panic:"+s.Args.Via, errX.Error())
+			case s.Reply.Status == 200 && codeX != 200:
+				viol(n, fmt.Sprintf("read:status:%s:%s:got%d", s.Args.Via, chain, codeX), fmt.Sprintf("reading index %d (%s) with external chain storage answered %d, the direct mode serves it", i, s.Args.Via, codeX))
+			case codeX == 200 && (!bytes.Equal(leafX, leafD) || !bytes.Equal(extraX, extraD)):
+				viol(n, fmt.Sprintf("read:differs:%s:%s", s.Args.Via, chain), fmt.Sprintf("index %d (%s): extra_data served with external chain storage (%d bytes, %s) differs from the direct mode (%d bytes)", i, s.Args.Via, len(extraX), extraForm(extraX), len(extraD)))
+			case s.Reply.Status != 200 && codeX == 200:
+				unmodelled = true
+			case s.Reply.Status != 200 && codeX < 500:
+				viol(n, fmt.Sprintf("read:fault-status:%s:got%d", s.Args.Via, codeX), fmt.Sprintf("index %d: damaged / missing stored chain answered %d, expected 5xx", i, codeX))
+			case s.Reply.Status == 200:
+				settle(n, before+finds, "after-read")
+				if !diverged && !unmodelled && finds != s.Reply.Finds {
+					viol(n, fmt.Sprintf("read:find-calls:%s:want=%d", s.Args.Via, s.Reply.Finds), fmt.Sprintf("index %d (%s): storage.FindByKey called %d times, specification says %d (cache capacity %d)", i, s.Args.Via, finds, s.Reply.Finds, beh.Cap))
+				}
+				rep.Add("paging_single_reads_"+s.Args.Via, 1)
+			}
+		case "Fire":
+			key, ok := tw.keys[s.Args.Chain]
+			if !ok {
+				infra("Fire of chain %s that was never stored", s.Args.Chain)
+				return
+			}
+			if tw.gate.FireKey(key) == 0 { // (the response that looked the chain up has waited for its writes to arrive)
+				viol(n, "fire:missing", "the specification expects detached cache writes for chain "+s.Args.Chain+" (looked up by a response that was served) but none waits at the gate")
+			}
+		case "DropRow":
+			tw.damage(s.Args.Chain, "drop", 0)
+		case "Corrupt":
+			tw.damage(s.Args.Chain, s.Args.Class, idx+n)
+		case "Repair":
+			tw.store.setRow(tw.keys[s.Args.Chain], append([]byte{}, tw.vals[s.Args.Chain]...))
+		case "Restart":
+			if err := pr.restart(); err != nil {
+				infra("restart: %v", err)
+				return
+			}
+		}
+	}
+	key := ""
+	if len(classes) >= 3 {
+		ks := []string{}
+		for k := range classes {
+			ks = append(ks, k)
+		}
+		key = fmt.Sprintf("%s:cap%d:%s", tw.dialect, beh.Cap, strings.Join(sortedStrings(ks), ","))
+	}
+	rep.Eval(key)
+}
+
+// TestChainStorePaging replays MCChainStorePaging.tla behaviours: twin instances over a long tree, get-entries
+// responses of every length class at aligned and unaligned starts, up to and over the head of the tree and the limit.
+func TestChainStorePaging(t *testing.T) {
+	path := os.Getenv("VERIF_BEHAVIOURS")
+	if path == "" {
+		t.Skip("VERIF_BEHAVIOURS not set")
+	}
+	behs, err := vh.LoadNDJSON[PGBehaviour](path)
+	if err != nil {
+		t.Fatal(err)
+	}
+	rep := vh.NewReport("cctfe-chainstore-paging", "behaviours of ChainStorePaging.tla replayed on two real instances (direct and external chain storage: in-memory stand-in / the repository's MySQL / PostgreSQL IssuanceChainStorage on the in-process database; noop cache, LRU without bound, LRU of one entry, behind the gate) over a long tree (entry types x four issuance chains incl. the empty one x hash / legacy full-chain layout in a period of 9, every leaf in hash form submitted through add-chain / add-pre-chain): get-entries responses of the length classes around the powers of two and multiples of four (+-1..3), round sizes, the limit and beyond, at aligned and unaligned starts, ending at and running over the head of the tree, meeting cold, partly warm and warm caches, lost / damaged rows, a storage fault, a leaf the backend returns garbled at the first / second / middle / last positions; EVERY entry of every response compared byte for byte with the direct mode, the number of entries and of storage lookups with the specification; single reads over both read endpoints anywhere in the tree; non-trivial = behaviour with responses of at least 3 length classes served")
+	if len(behs) == 0 {
+		t.Fatal("no behaviours")
+	}
+	for _, b := range behs {
+		if b.MaxPage != behs[0].MaxPage {
+			t.Fatal("behaviours of different get-entries limits in one run")
+		}
+	}
+	defer func(old int64) { ctfe.MaxGetEntriesAllowed = old }(ctfe.MaxGetEntriesAllowed)
+	ctfe.MaxGetEntriesAllowed = int64(behs[0].MaxPage)
+	dir := t.TempDir()
+	var wg sync.WaitGroup
+	sem := make(chan struct{}, runtime.NumCPU())
+	for i := range behs {
+		sem <- struct{}{}
+		wg.Add(1)
+		go func(i int) {
+			defer wg.Done()
+			defer func() { <-sem }()
+			runPaging(t, behs[i], i, rep, dir)
+		}(i)
+	}
+	wg.Wait()
+	rep.Replayed = len(behs)
+	rep.Sample(map[string]any{"cap": behs[0].Cap, "dialect": behs[0].Dialect, "tree": behs[0].Tree, "steps": behs[0].Steps})
 	if err := rep.Write(); err != nil {
 		t.Fatal(err)
 	}
